@@ -61,21 +61,21 @@ func knobsFor(seed uint64) Knobs {
 
 // ReplayFile is everything needed to re-execute one run exactly.
 type ReplayFile struct {
-	Property string         `json:"property"`
-	Harness  string         `json:"harness"`
-	Seed     uint64         `json:"verif_seed"`
-	RunIndex int            `json:"run_index"`
-	RunSeed  uint64         `json:"run_seed"`
-	Knobs    Knobs          `json:"knobs"`
-	Prog     []uint32       `json:"program_choices"`
-	Sched    []uint32       `json:"schedule_choices"`
-	Check    string         `json:"check"`
-	Message  string         `json:"message"`
-	Hash     string         `json:"trace_hash"`
-	Steps    int            `json:"steps"`
-	Faults   map[string]int `json:"faults_fired"`
-	Trace    []simrt.Event  `json:"trace"`
-	Logs     []string       `json:"log"`
+	Property  string         `json:"property"`
+	Harness   string         `json:"harness"`
+	Seed      uint64         `json:"verif_seed"`
+	RunIndex  int            `json:"run_index"`
+	RunSeed   uint64         `json:"run_seed"`
+	Knobs     Knobs          `json:"knobs"`
+	Prog      []uint32       `json:"program_choices"`
+	Sched     []uint32       `json:"schedule_choices"`
+	Check     string         `json:"check"`
+	Message   string         `json:"message"`
+	Hash      string         `json:"trace_hash"`
+	Steps     int            `json:"steps"`
+	Faults    map[string]int `json:"faults_fired"`
+	Trace     []simrt.Event  `json:"trace"`
+	Logs      []string       `json:"log"`
 	Minimised struct {
 		Executions int `json:"executions"`
 		ProgFrom   int `json:"program_len_before"`
@@ -84,11 +84,12 @@ type ReplayFile struct {
 }
 
 type outcome struct {
-	res   *simrt.Result
-	check string // "" = held
-	msg   string
-	prog  []uint32
-	sched []uint32
+	res          *simrt.Result
+	check        string // "" = held
+	msg          string
+	prog         []uint32
+	sched        []uint32
+	inconclusive bool
 }
 
 func execute(t *testing.T, h Harness, k Knobs, prog, sched *simrt.Stream, keep int) outcome {
@@ -109,6 +110,13 @@ func execute(t *testing.T, h Harness, k Knobs, prog, sched *simrt.Stream, keep i
 	switch {
 	case res.Fail != nil:
 		o.check, o.msg = res.Fail.Check, res.Fail.Msg
+	case res.Aborted == "" && h.Post != nil && res.Data != nil:
+		var inc bool
+		o.check, o.msg, inc = h.Post(res.Data)
+		if inc {
+			o.check, o.msg = "", ""
+			o.inconclusive = true
+		}
 	case res.Aborted == "deadlock":
 		harnessBlocked := false
 		desc := ""
@@ -229,6 +237,9 @@ func TestWorker(t *testing.T) {
 		sum.Runs++
 		sum.PerHarness[h.Name]++
 		sum.Strategies[[]string{"uniform", "run-long", "pct"}[k.Strategy]]++
+		if o.inconclusive {
+			sum.Inconcl++
+		}
 		if o.check == "infrastructure" {
 			emit(map[string]any{"kind": "infra", "msg": o.msg, "run_index": idx})
 			sum.DetFail = append(sum.DetFail, fmt.Sprintf("run %d: %s", idx, o.msg))
